@@ -344,7 +344,7 @@ def r11b(run):
 
 
 def check(run):
-    run.rules_run += ["R11a", "R11b", "R11c", "R11d", "R04c"]
+    run.rules_run += ["R11a", "R11b", "R11c", "R11d", "R04c", "R10f"]
     run.explain("C11: every catch-all handler around a conversion that consults an exclude/preserve policy (directly or "
                 "through a local bound to get_on_error / on_error) is partitioned by the policy literal: EXCLUDE warns, "
                 "never raises, and no store of the element / no value return is reachable; PRESERVE warns, never raises, "
@@ -355,4 +355,6 @@ def check(run):
     r11b(run)
     r11c(run)
     r11d(run)
+    from . import c10
+    c10.r10f(run)
     c04.r04c(run)
